@@ -52,15 +52,21 @@ fn check(s: &str, l: &Lexer<'_>, r: ControlFlow<(Token<'_>, Range<usize>)>) {
             assert!(on_boundaries(s, &span), "OBL:C06.lexer.span_in_file_on_char_boundaries");
             assert!(l.input.len() == s.len() - span.end, "OBL:C06.lexer.rest_is_suffix_after_token");
             assert!(span.end > span.start, "OBL:C06.lexer.token_is_not_empty");
-            if let Some(text) = token_text(&tok) {
-                let whole = &s[span.start..span.end];
-                let ok = match &tok {
-                    // number tokens split their text into digits and suffix
-                    Token::Integer(a, b) | Token::Float(a, b) => a.len() + b.len() == whole.len() && whole.starts_with(*a) && whole.ends_with(*b),
-                    _ => text.len() == whole.len() && text.as_ptr() == whole.as_ptr(),
-                };
-                assert!(ok, "OBL:C09.lexer.token_text_is_exactly_the_source_bytes");
-            }
+            // the token text is the very bytes of the source the span names (pointer identity,
+            // no re-slicing: slicing would itself panic off a boundary and hide the verdict)
+            let base = s.as_ptr() as usize + span.start;
+            let len = span.end - span.start;
+            let ok = match &tok {
+                // number tokens split their text into digits and suffix
+                Token::Integer(a, b) | Token::Float(a, b) => {
+                    a.as_ptr() as usize == base && a.len() + b.len() == len && (b.is_empty() || b.as_ptr() as usize == base + a.len())
+                }
+                _ => match token_text(&tok) {
+                    Some(text) => text.as_ptr() as usize == base && text.len() == len,
+                    None => true,
+                },
+            };
+            assert!(ok, "OBL:C09.lexer.token_text_is_exactly_the_source_bytes");
         }
     }
 }
@@ -125,15 +131,15 @@ macro_rules! fstring_part {
                 None => {}
                 Some((tok, span)) => {
                     assert!(on_boundaries(s, &span) && span.start == 0, "OBL:C06.lexer.fstring_part_span_on_char_boundaries");
-                    let whole = &s[span.start..span.end];
+                    let (base, len) = (s.as_ptr() as usize + span.start, span.end - span.start);
                     match tok {
                         FStringToken::StringEnd(t) => {
-                            assert!(t.len() == whole.len() && t.as_ptr() == whole.as_ptr(), "OBL:C09.lexer.fstring_end_text_is_exactly_the_source");
+                            assert!(t.len() == len && t.as_ptr() as usize == base, "OBL:C09.lexer.fstring_end_text_is_exactly_the_source");
                             assert!(s.as_bytes()[span.end] == b'"', "OBL:C09.lexer.fstring_end_stops_at_the_quote");
                             assert!(l.input.len() == s.len() - span.end - 1, "OBL:C06.lexer.fstring_end_consumes_the_quote_only");
                         }
                         FStringToken::StringIntermediate(t) => {
-                            assert!(t.len() == whole.len() && t.as_ptr() == whole.as_ptr(), "OBL:C09.lexer.fstring_part_text_is_exactly_the_source");
+                            assert!(t.len() == len && t.as_ptr() as usize == base, "OBL:C09.lexer.fstring_part_text_is_exactly_the_source");
                             assert!(s.as_bytes()[span.end] == b'{', "OBL:C09.lexer.fstring_part_stops_before_the_brace");
                             assert!(l.input.len() == s.len() - span.end, "OBL:C06.lexer.fstring_part_leaves_the_brace");
                         }
